@@ -94,7 +94,7 @@ Inductive segment :=
   | SAscii (items : list aitem)
   | SB256 (bytes : list N)          (* explicit length field *)
   | SB256End (bytes : list N)       (* length field 0: runs to the end of the symbol; only as the last segment *)
-  | SC40 (text : bool) (chars : list N) (fill : bool) (t : term)   (* fill: one Shift-1 value completes the last triple *)
+  | SC40 (text : bool) (chars : list N) (fill : nat) (t : term)   (* fill completing the last triple: 0 none; 1: one Shift-1 value; 2: Shift 2 + Upper Shift; 3: one Shift-2 value; 4: one Shift-3 value; 5/6/7: Shift 2, Upper Shift, then Shift 1/2/3 (dangling shifts decode to nothing) *)
   | SX12 (chars : list N) (t : term)
   | SEdifact (chars : list N) (t : term).
 
@@ -111,8 +111,10 @@ Fixpoint pack_edi (vals : list N) : list N :=
 Definition edi_vals (chars : list N) (t : term) : list N :=
   map (fun ch => ch mod 64) chars ++ match t with TUnlatch => [31] | TEnd => [] end.
 
-Definition c40_run_vals (text : bool) (chars : list N) (fill : bool) : list N :=
-  flat_map (c40_vals text) chars ++ (if fill then [0] else []).
+Definition fill_vals (fill : nat) : list N := match fill with O => [] | S O => [0] | S (S O) => [1; 30] | S (S (S O)) => [1] | S (S (S (S O))) => [2] | S (S (S (S (S O)))) => [1; 30; 0]
+  | S (S (S (S (S (S O))))) => [1; 30; 1] | _ => [1; 30; 2] end.
+Definition c40_run_vals (text : bool) (chars : list N) (fill : nat) : list N :=
+  flat_map (c40_vals text) chars ++ fill_vals fill.
 
 Definition bytes_ok (l : list N) : bool := forallb (fun b => b <? 256) l.
 Definition len_field (n : N) : list N := if n <? 250 then [n] else [n / 250 + 249; n mod 250].
@@ -156,25 +158,26 @@ Definition pad (before : N) (n : nat) : list N :=
 (* a script is legal if every segment is, a run-to-the-end Base256 field is last and unpadded, and a C40/Text/X12
    run without Unlatch ends the symbol: nothing follows it, or exactly one more ASCII-encoded codeword *)
 Definition single_cw (i : aitem) : bool := match i with AUpper _ => false | _ => true end.
+(* number of codewords of the rest (does not depend on the position) *)
+Definition rest_len (r : list segment) (npad : nat) : nat := (length (render 0 r) + npad)%nat.
 Definition ends_symbol (r : list segment) (npad : nat) : bool :=
-  Nat.eqb npad 0 &&
+  Nat.leb (rest_len r npad) 1 &&
   match r with
-  | [] => true
-  | [SAscii [i]] => aitem_ok i && single_cw i
+  | [] => true                                   (* nothing, or one pad codeword *)
+  | [SAscii [i]] => aitem_ok i && single_cw i    (* one ASCII-encoded codeword *)
   | _ => false
   end.
 Definition term_of (s : segment) : option term :=
   match s with SC40 _ _ _ t | SX12 _ t => Some t | _ => None end.
-(* EDIFACT at the end of the symbol: the run stops without unlatch and at most two ASCII-encoded codewords follow *)
+(* EDIFACT at the end of the symbol: the run stops without unlatch and at most two codewords follow, ASCII-encoded
+   characters or padding *)
 Definition ends_symbol2 (r : list segment) (npad : nat) : bool :=
-  Nat.eqb npad 0 &&
+  Nat.leb (rest_len r npad) 2 &&
   match r with
   | [] => true
-  | [SAscii items] => forallb aitem_ok items && Nat.leb (length (flat_map aitem_cw items)) 2
+  | [SAscii items] => forallb aitem_ok items
   | _ => false
   end.
-(* number of codewords of the rest (does not depend on the position) *)
-Definition rest_len (r : list segment) (npad : nat) : nat := (length (render 0 r) + npad)%nat.
 (* an explicit EDIFACT unlatch must not sit in the last two codewords of the symbol (those are read as ASCII) *)
 Definition unlatch_group_bytes (nchars : nat) : nat := match Nat.modulo nchars 4 with O => 1%nat | S O => 2%nat | _ => 3%nat end.
 Fixpoint script_ok (segs : list segment) (npad : nat) : bool :=
